@@ -40,7 +40,17 @@ NOTES = ["oracle, on the real binary alone: a run whose output cannot be complet
          "are not modelled (regular files do not produce them)",
          "when stdout itself cannot be written (`resynth x.rsyn > /dev/full`) the println! of the status line panics "
          "(exit 101); the property is about input/output/data files, so this is recorded as an observation in "
-         "ctx.dist['stdout_full'] and not judged"]
+         "ctx.dist['stdout_full'] and not judged",
+         "D28 (found by this check on tree 78e5b6e, fixed in a00184e; class panic-on-input-without-file-name): an input "
+         "path without a file name (`..`, `/`, `.`, the empty string, `x/..`) panicked at src/cli.rs "
+         "`out.push(p.file_stem().unwrap())` (exit 101, later inputs never compiled) instead of being reported as an "
+         "unreadable input; the catalogue scenarios input-path-without-file-name-* watch it (oracle only: the CLI's "
+         "derivation of the output name from the input name, and its refusal of two inputs with the same output, are not "
+         "modelled)",
+         "self-test: selftest/mutants/D21.diff, D28.diff and C19_{flush_ignored, flush_err_only_enospc, pktgen_write_ignored, "
+         "pkt_write_swallowed, exit_zero, iofile_empty, utf8_eof, keep_inverted} fail the oracle with a concrete replay "
+         "(program + limit); C19_capacity (BufWriter::with_capacity(65536)) preserves the property and is flagged through "
+         "the correspondence only (diagnostic location / kept-file length differ from the model)"]
 MODELLED = ("pkt/src/pcap.rs PcapWriter (create/write_header/write_packet/flush), std::io::BufWriter (flush_buf, "
             "write_all, write_all_cold, flush, Drop) and Write::write_all over a file with a failure point, "
             "src/program.rs add_expr/flush, src/cli.rs process_file/resynth (status line, exit status, remove_file) are "
@@ -86,13 +96,17 @@ def sized_prog(name, kind, recsizes, datadir, rng, tail=""):
     return Prog(name, kind, "".join(lines) + tail, files)
 
 
-def tcp_prog(name, sizes, datadir, rng):
+def tcp_prog(name, sizes, datadir, rng, close=True):
+    """multi-packet statements (Val::PktGen): handshake, message + ack, close; with close=False the last
+    statement is a one-packet sequence (send_ack: false), so a large last message ends the file"""
     files = {}
     lines = [PRE, "let t = ipv4::tcp::flow(192.168.0.1:32768, 10.1.1.1:80);\n", "t.open();\n"]
     for i, n in enumerate(sizes):
         op = "client_message" if i % 2 == 0 else "server_message"
-        lines.append("t.%s(%s);\n" % (op, payload_expr(n, files, datadir, rng)))
-    lines.append("t.client_close();\n")
+        last = (not close) and i == len(sizes) - 1
+        lines.append("t.%s(%s%s);\n" % (op, "send_ack: false, " if last else "", payload_expr(n, files, datadir, rng)))
+    if close:
+        lines.append("t.client_close();\n")
     return Prog(name, "tcp-multi-packet", "".join(lines), files)
 
 
@@ -181,6 +195,7 @@ def make_programs(ctx, datadir):
     P.append(sized_prog("bigrec", "records-larger-than-buffer", [9000, 100, 20000, 8300] + ([60000, 70, 33000] if t else []),
                         datadir, r))
     P.append(tcp_prog("tcpbig", [3000, 9000, 100, 8200] + ([20000, 5] if t else []), datadir, r))
+    P.append(tcp_prog("tcplast", [200, 9000], datadir, r, close=False))
     P.append(frag_prog("frag", 6000 if not t else 30000, 100 if not t else 180, datadir, r))
     if t:
         P.append(frag_prog("fragbig", 60000, 1100, datadir, r))
@@ -507,6 +522,8 @@ def catalogue(ctx, d, datadir):
                 os.makedirs(ip)
             elif src == "longname":
                 ip = os.path.join(sd, "n" * 300 + ".rsyn")
+            elif isinstance(src, str) and src.startswith("path:"):
+                ip = src[5:].replace("@", sd)          # a literal path given to the CLI
             elif src is not None:
                 with open(ip, "wb") as f:
                     f.write(src)
@@ -535,7 +552,8 @@ def catalogue(ctx, d, datadir):
                   "how": "recreate the arrangement named by the scenario and run the argv"}
             before = len(ctx.violations)
             if "panicked at" in se or rc not in (0, 1):
-                ctx.fail("panic-on-io-failure", "%s/%s: the process died rc=%s %s" % (tag, label, rc, se.strip()[-200:]), rp)
+                cls = "panic-on-input-without-file-name" if tag.startswith("input-path-without-file-name") else "panic-on-io-failure"
+                ctx.fail(cls, "%s/%s: the process died rc=%s %s" % (tag, label, rc, se.strip()[:300]), rp)
             elif expect == "fail":
                 ctx.distinct((tag, label, keep))
                 if o.ok_line:
@@ -600,6 +618,9 @@ def catalogue(ctx, d, datadir):
         scenario("input-missing", [("a", None, "fail", (True, None, {}, None))], None, keep)
         scenario("input-is-directory", [("a", "dir", "fail", (True, "unreadable", {}, None))], None, keep)
         scenario("input-name-too-long", [("a", "longname", "fail", (True, None, {}, None))], None, keep)
+        # a path that names no file (a directory by construction): unreadable input, oracle only
+        for nm, pth in (("dotdot", "path:@/.."), ("root", "path:/"), ("dot", "path:."), ("empty", "path:")):
+            scenario("input-path-without-file-name-" + nm, [("a", S, ) + okS, ("m", pth, "fail", None)], None, keep)
         scenario("input-invalid-utf8-first-line", [("a", b"\xff\xfe\n" + S, "fail", (True, b"\xff\xfe\n" + S, mfiles(small), None))], None, keep)
         u8 = S + b"# \xc3\x28 broken\n" + b"u.client_dgram(\"after\");\n"
         scenario("input-invalid-utf8-after-packets", [("a", u8, "fail", (True, u8, mfiles(small), None))], None, keep)
@@ -705,7 +726,7 @@ def run(ctx):
             ctx.fail("panic-without-fault", "%s: %s" % (p.name, p.status), replay_dict(p, None, True))
     # offsets
     full_upto = 20000 if ctx.thorough else 2600
-    nrandom = 400 if ctx.thorough else 30
+    nrandom = 300 if ctx.thorough else 30
     radius = 40 if ctx.thorough else 20
     jobs, mcases = [], []
     sizes, noffs, straddle = {}, 0, 0
